@@ -82,7 +82,9 @@ class Axis:
             return False
 
         for neighbour in self.neighbours:
-            if neighbour.is_defined:
+            # a neighbour whose wires were all copied from its own neighbours
+            # is defined but holds no chops; there's nothing to copy from it
+            if neighbour.is_defined and len(neighbour.wires.chops) > 0:
                 if neighbour.is_aligned(self):
                     for chop in neighbour.wires.chops:
                         self.wires.add_chop(chop.copy_preserving())
